@@ -7,6 +7,8 @@
 //!    ones, x all combinations of indent step, compact list indent, empty-as-braces, quote-all,
 //!    YAML-1.2 mode, block-scalar preference and tagged enums: the emitted text is one document (a
 //!    second document is never started) and deserializes back into an equal value of the same type.
+//!    The grammar includes struct variants with plain collection fields and with field names that need quoting; every
+//!    position is tried even when an earlier one fails; scalar leaves run under all indent_step = 1 vectors in the quick tier.
 use crate::coq;
 use crate::ctx::{Ctx, Rng};
 use crate::util;
